@@ -6,6 +6,8 @@ R-ALIGN.pool   pools reject alignments above what their nodes guarantee (throwin
                composable: null on the same comparison); the collection reserves with max_alignment and aligns block remainders to it
 R-RUN          the array search returns a run only after an accumulator that grows by the node size on the contiguous branch and is
                reset on a gap reached the requested byte count; callers pass (bytes, node size) in that order
+R-BOUND        the size bytes behind the returned address are inside the region: shared bound rule of C01 (advance == checked amount,
+               no unsigned wrap in the guard) over every function that moves a bump cursor
 R-FWD          aligned_allocator forwards an alignment that is provably >= the requested one in all eight members (shared rule)
 """
 import re
@@ -23,10 +25,11 @@ def check_align_term(run, db):
     for ct, short in (('detail::fixed_memory_stack', 'allocate'), ('memory_stack', 'allocate'), ('iteration_allocator', 'allocate')):
         cands += db.find(cls_t=ct, short=short)
     for f in cands:
-        pnames = [p['name'] for p in f.params]
-        if 'alignment' not in pnames:
+        # (end, size, alignment, fence) for the fixed stack, (size, alignment) for the others: the alignment is identified by position
+        ai = {4: 2, 2: 1}.get(len(f.params))
+        if ai is None:
             continue
-        roles = {pnames.index('alignment'): 'alignment'}
+        roles = {ai: 'alignment'}
         try:
             S = [s for s in fwd.summarize(f, db=db, inline_pred=c01.inline_cursor, no_forward=True, roles=roles) if s.end == 'return']
         except sym.PathLimit as e:
@@ -206,6 +209,7 @@ def run(run):
     run.rule('R-ALIGN.pool', 'pools reject larger alignments; collection uses max_alignment', floor=10)
     run.rule('R-RUN', 'array search returns only runs covering the requested bytes', floor=2)
     run.rule('R-FWD', 'aligned_allocator never lowers the alignment', floor=8)
+    run.rule('R-BOUND', 'size bytes behind the returned address lie inside the region (shared with C01)', floor=10)
     run.explanation = ('That align_offset / alignment_for compute what their names say is C19 (not applicable to this family); here the terms they are '
                        'applied to are decided. Non-null is C03; block-start alignment is the W-layout witness of C01.')
     for cfg in common.configs(run):
@@ -216,5 +220,7 @@ def run(run):
             run.broke('pool traits not found [%s]' % cfg)
         if check_run(run, db) < 2:
             run.broke('array search functions not found [%s]' % cfg)
+        if c01.check_bound(run, db) < 8:
+            run.broke('bump sites not found [%s]' % cfg)
         if check_aligned_allocator(run, db) < 8:
             run.broke('aligned_allocator members not instantiated [%s]' % cfg)
